@@ -53,9 +53,23 @@ def coq_check(pid, extra_targets=()):
         m = re.findall(r'File "([^"]+)", line (\d+)[^\n]*\n(?:.*\n){0,6}?Error:[^\n]*(?:\n[^\n]+){0,3}', out)
         res['failed'].append('coq build failed: ' + (re.search(r'File "[^"]+", line \d+[\s\S]{0,600}', out).group(0) if re.search(r'File "[^"]+", line \d+', out) else out[-600:]))
         res['discharged'] = 0
+        labels = failing_generated_labels(pid)
+        if labels:
+            res['failed'].append('generated obligations that fail (%d): ' % len(labels) + ' || '.join(labels[:12]))
     if ax:
         res['failed'].append('unexpected axioms: ' + '; '.join(res['assumptions']))
     return res
+
+def failing_generated_labels(pid):
+    """names of the generated obligations (tie T) that no longer check; evaluated in Coq from the definitions the theorems use"""
+    q = {'C11': 'Refine.failing_labels', 'C12': 'Refine.failing_labels'}.get(pid)
+    if not q:
+        return []
+    cq = os.path.join(VERIF, 'coq')
+    tmp = os.path.join(workdir(), 'labels_query.v')
+    open(tmp, 'w').write('Require Import CMP.Refine. Require Import String List.\nEval vm_compute in %s.\n' % q)
+    r = sh('timeout 600 coqc -Q theories CMP -Q gen CMPGen %s' % tmp, cwd=cq, timeout=700)
+    return re.findall(r'"((?:[^"]|"")*)"%string', r.stdout)
 
 def gen_sync():
     """copy the translator's outputs for the current tree into coq/gen (only when content changed, so make stays incremental)"""
@@ -118,8 +132,18 @@ class Result:
             json.dump(ev, f, indent=1, default=str)
         for k in self.known:
             print(k)
-        for what, path, found in self.violations[:5]:
-            print('VIOLATION property=%s replay=%s%s' % (self.pid, path, '' if found else ' no-failing-input-found'))
+        found_paths = [path for _, path, found in self.violations if found]
+        shown = sorted(self.violations, key=lambda v: not v[2])[:5]
+        for what, path, found in shown:
+            if found:
+                print('VIOLATION property=%s replay=%s' % (self.pid, path))
+            elif found_paths:
+                # a proof obligation / the correspondence broke AND the search found a concrete failing input: that input is the replay
+                with open(found_paths[0], 'a') as f:
+                    f.write('# also: ' + what.replace('\n', '\n# ')[:3000] + '\n# (details: %s)\n' % path)
+                print('VIOLATION property=%s replay=%s' % (self.pid, found_paths[0]))
+            else:
+                print('VIOLATION property=%s replay=%s no-failing-input-found' % (self.pid, path))
             print('  ' + what.split('\n')[0][:300])
         sys.stdout.flush()
         return 1 if self.violations else 0
